@@ -79,14 +79,13 @@ def run(job):
             raise
         name = type(ex).__name__
         mod = type(ex).__module__ or ""
-        # errors the compiler raises on purpose: diagnostics.error() with raise_errors=True raises
-        # RuntimeError("[stage] message"); the parser raises SyntaxError; the preprocessor FileNotFoundError
+        # A refusal is any exception that carries a message about the program: diagnostics.error() with raise_errors=True
+        # raises RuntimeError("[stage] message"), the parser SyntaxError, resolvers ValueError / FileNotFoundError.
+        # Exceptions that only ever mean "the compiler itself broke" are crashes.
         msg = str(ex)
-        deliberate = (
-            (name == "RuntimeError" and msg.startswith("["))
-            or name in ("SyntaxError", "FileNotFoundError")
-            or mod.startswith("lark")
-        )
+        internal = name in ("AttributeError", "KeyError", "TypeError", "IndexError", "AssertionError", "RecursionError", "NameError",
+                            "UnboundLocalError", "ZeroDivisionError", "NotImplementedError", "MemoryError", "OverflowError")
+        deliberate = not internal and bool(msg.strip())
         out["status"] = "rejected" if deliberate else "crashed"
         out["message"] = str(ex)[:2000]
         out["exc"] = "%s.%s" % (mod, name)
